@@ -135,8 +135,15 @@ func c14(c *Sexp) *Sexp {
 		}
 		// as utils.ReadMultiTrees: a producer goroutine and a channel closed at the end
 		ch := make(chan tree.Trees, len(trees)+1)
+		// the Id field of the records follows the policy of the case (a reader numbers 0,1,2,...; a
+		// filter or a caller of the library may send anything): the average must not depend on it
+		ids := c.IntList("ids")
 		for i, t := range trees {
-			ch <- tree.Trees{Tree: t, Id: i, Err: nil}
+			id := i
+			if i < len(ids) {
+				id = ids[i]
+			}
+			ch <- tree.Trees{Tree: t, Id: id, Err: nil}
 		}
 		close(ch)
 		mat, tips, err := tree.AvgDistanceMatrix(c14metric(c.Str("metric")), ch)
